@@ -46,6 +46,8 @@ ASSUMPTIONS = [
     "whose first characters occur in 'RSA1024:' / 'ED25519-V3:' can be supplied; create() of an authenticated v2 service cannot complete there "
     "and is not judged) and auth-service-id-not-derived-from-key (the ServiceID returned for a BasicAuth service is not the hash of its key; "
     "HS_DESC events name the key-derived id); the per-ADD_ONION / DEL_ONION oracle is unchanged in both",
+    "cells with ports_as_tuple pass the mappings as a tuple instead of a list (the API takes any sequence); a tuple of two ints is two "
+    "int-form mappings, as for a list",
     "cells with remove_plan: Tor answers DEL_ONION with 552 / 551 (scripted, the service stays in the reference Tor) and the caller calls "
     "remove() again; a remove() call may fail, but one that reports success must itself have sent DEL_ONION <ServiceID> and got 250, and the "
     "reference Tor must no longer hold the service. A remove() after a successful one is not generated (sending DEL_ONION again or "
@@ -124,6 +126,14 @@ INT_PORT_LISTS["int+int"] = [80, 443]
 INT_PORT_LISTS["int+pair+int+str"] = [80, [22, 2222], 8080, "25 127.0.0.1:2525"]
 
 
+TUPLE_PORT_LISTS = {
+    "int": [80], "pair": [[80, 8080]], "str": ["80 127.0.0.1:8080"],
+    "int+int": [80, 443], "int+str": [80, "443 127.0.0.1:8443"], "int+pair": [80, [443, 8443]],
+    "pair+pair-unix": [[22, 2222], [80, "unix:/tmp/w.sock"]], "str+str": ["80 127.0.0.1:8080", "81 unix:/run/x.sock"],
+    "int+pair+str": [80, [81, 8081], "82 127.0.0.1:8082"], "int+int+int": [80, 443, 8080],
+}
+
+
 def cookie(i):
     return OT.client_cookie("vf-c14-client-%d" % i)
 
@@ -164,6 +174,12 @@ def all_cells():
         yield {"route": "auth", "version": 2, "key": key, "detach": detach, "single_hop": False,
                "auth": a, "clients": auth_clients(a), "ports_id": pl, "ports": PORT_LISTS[pl], "await_all": aw,
                "server_variant": "auth-service-id-not-derived-from-key"}
+    # the port mappings given as a TUPLE (of every length, in particular exactly two entries)
+    for route, version, pl in itertools.product(ROUTES, (2, 3), sorted(TUPLE_PORT_LISTS)):
+        a = "b1n" if route == "auth" else None
+        yield {"route": route, "version": version, "key": "none", "detach": False, "single_hop": False,
+               "auth": a, "clients": auth_clients(a) if a else None, "ports_id": pl, "ports": TUPLE_PORT_LISTS[pl],
+               "await_all": False, "ports_as_tuple": True}
     # removal refused by Tor (552 Unknown Onion Service id / 551), the caller calls remove() again
     for route, version, key, plan in itertools.product(
             ROUTES, (2, 3), ("none", "bare"), (["552", "ok"], ["551", "ok"], ["552", "551", "ok"], ["552", "552"])):
@@ -298,6 +314,8 @@ def variant_class(cell):
     out = []
     if cell.get("server_variant"):
         out.append("server-variant-" + cell["server_variant"])
+    if cell.get("ports_as_tuple"):
+        out.append("ports-given-as-tuple-of-%d" % len(cell["ports"]))
     if cell.get("tor_best"):
         out.append("server-best-is-" + cell["tor_best"])
     if cell.get("async_port_lookup"):
@@ -473,6 +491,8 @@ def run_cell(cell, rec, probe=False, ctx=None, objs=None, extra_class=None, inje
             ports = objs["ports"]
         else:
             ports = [tuple(p) if isinstance(p, list) else p for p in cell["ports"]]
+            if cell.get("ports_as_tuple"):
+                ports = tuple(ports)            # the API takes any sequence: a tuple of mappings, too
         ports_before = [p for p in ports]
         auth_obj = None
         if inject == "refuse":
@@ -906,9 +926,11 @@ def random_cell(rnd):
         if version == 3:
             import base64
             cell["adv_blob"] = base64.b64encode(base64.b64decode(cell["adv_blob"][:86] + "==")).decode("ascii")
+    if rnd.random() < 0.25:
+        cell["ports_as_tuple"] = True
     if rnd.random() < 0.15:
         cell["remove_plan"] = [rnd.choice(["552", "551"]) for _ in range(rnd.randint(1, 3))] + ["ok"]
-    if rnd.random() < 0.1:
+    if rnd.random() < 0.1 and not cell.get("ports_as_tuple"):
         cell["caller_mutates_after_call"] = True
     if rnd.random() < 0.3:
         cell["async_port_lookup"] = True
